@@ -1,4 +1,5 @@
 import LcModel.Difficulty.Model
+import LcModel.Sampling.Model
 
 /-- `lcmodel <layer>`: one operation per stdin line, one answer per stdout line. -/
 partial def loop (h : IO.FS.Stream) (out : IO.FS.Stream) (f : String → String) : IO Unit := do
@@ -13,4 +14,5 @@ def main (args : List String) : IO UInt32 := do
   let stdout ← IO.getStdout
   match args with
   | ["difficulty"] => loop stdin stdout Difficulty.step; return 0
+  | ["sampling"] => loop stdin stdout Sampling.step; return 0
   | _ => IO.eprintln "usage: lcmodel <layer>"; return 2
